@@ -103,7 +103,7 @@ fn main() {
     let meta = Meta {
         rule: format!("configurations x inputs: every choice tape with at most {} non-default answers of the adversarial backend (argsort tie order, component numbering, sparse_bincount row order, scatter filler; all tapes for the primitive-level slices) crossed with every input of the listed universes, for composition, tensor, functor and optic application, layering, evaluation, structural predicates and morphism tests; compared with the Vec backend's result (isomorphic diagrams, identical booleans / Option-ness / evaluation outputs and interpreter calls, layer validity by the C15 oracle); non-trivial = some tape changes the raw (un-normalised) result", bound),
         bounds: format!("deviation bound {} (at most {} executions per input), inputs: <=2-3 nodes, <=1-2 hyperedges", bound, CAP),
-        assumptions: vec!["AdvKind conforms to the array contract: established by the adv-conformance slices (C07 oracle under every alternative of every choice point)".into(), "only Vec and adversarial variants of it are run; a GPU backend's own bugs are out of scope".into()],
+        assumptions: vec!["AdvKind conforms to the array contract: established by the adv-conformance slices (C07 oracle under every alternative of every choice point); plus the structured larger diagrams of C15-C17 (wide frontiers, many operations per layer, long chains)".into(), "only Vec and adversarial variants of it are run; a GPU backend's own bugs are out of scope".into()],
         explanation: "CHESS-style iterative deviation bounding applied to the environment answers of the array backend: run with a prefix, then defaults; recurse on every later choice point within the bound; a replay whose prefix meets different choice points is a machinery error".into(),
     };
     std::process::exit(ctx.finish(meta));
